@@ -11,7 +11,7 @@ func checkC09(e *RunEnv) *CheckResult {
 		// quick: a smaller edit alphabet (the name sweep below covers the sibling names)
 		paths = []string{"d/x", "d/y", "ad/x", "a(b", "g", "n", "d/s/t/u", "big"}
 	}
-	spellings := []string{".", "@ROOT@/d/x", "@ROOT@/d", "../root/g", "@ROOT@", "d/", "./d", "d/.", "./g", "d//x", "nonexist/../g"}
+	spellings := []string{"", ".", "@ROOT@/d/x", "@ROOT@/d", "../root/g", "@ROOT@", "d/", "./d", "d/.", "./g", "d//x", "nonexist/../g"}
 	args := []string{"d/x", "d/y", "ad/x", "d.c", "a(b", "g", "d0", "n", "big", "d", "ad", "d/s", "d/s/t", "nope", "d/nope"}
 	if e.Thorough() {
 		args = append(spellings, args...)
